@@ -205,7 +205,8 @@ def _const(v):
 
 
 class Transformer(ast.NodeTransformer):
-    def __init__(self, while_specs=()):
+    def __init__(self, while_specs=(), extra_havoc=None):
+        self.extra_havoc = extra_havoc or {}
         self.loop_counter = 0
         self.loops: list[dict] = []
         self.while_specs = set(while_specs)
@@ -404,6 +405,7 @@ class Transformer(ast.NodeTransformer):
         assigned = [n for n in _names_assigned(node.body) if n not in tnames and not n.startswith("__")]
         mutated = [n for n in _names_mutated(node.body) if n not in tnames and n not in assigned]
         names = assigned + mutated
+        names += [n for n in self.extra_havoc.get(k, ()) if n not in names]
         names_c = ast.Tuple(elts=[_const(n) for n in names], ctx=ast.Load())
         itv = f"__it{k}"
         pre = ast.Assign(targets=[ast.Name(id=ctl, ctx=ast.Store())],
@@ -451,6 +453,7 @@ class Transformer(ast.NodeTransformer):
         assigned = [n for n in _names_assigned(node.body) if not n.startswith("__")]
         mutated = [n for n in _names_mutated(node.body) if n not in assigned]
         names = assigned + mutated
+        names += [n for n in self.extra_havoc.get(k, ()) if n not in names]
         names_c = ast.Tuple(elts=[_const(n) for n in names], ctx=ast.Load())
         pre = ast.Assign(targets=[ast.Name(id=ctl, ctx=ast.Store())],
                          value=_call("wloop", _const(k), _locals(), names_c))
@@ -489,7 +492,7 @@ class Transformer(ast.NodeTransformer):
         return node
 
 
-def transformed_function(relpath: str, qual: str, while_specs=()):
+def transformed_function(relpath: str, qual: str, while_specs=(), extra_havoc=None):
     """Return (code_factory, info).  code_factory(globals) -> python function object."""
     src, node = find_def(relpath, qual)
     if not isinstance(node, (ast.FunctionDef, ast.AsyncFunctionDef)):
@@ -497,7 +500,7 @@ def transformed_function(relpath: str, qual: str, while_specs=()):
     import copy
 
     node = copy.deepcopy(node)
-    tr = Transformer(while_specs)
+    tr = Transformer(while_specs, extra_havoc)
     new = tr.visit(node)
     mod = ast.Module(body=[new], type_ignores=[])
     ast.fix_missing_locations(mod)
